@@ -29,6 +29,17 @@ Lemma handler_run_eq o ix h n nu now :
     else ret tt.
 Proof. unfold handler_run, deliver. case_bool_decide; [|done]. destruct (hd_prev h), nu; done. Qed.
 
+(* the same table governs the handlers attached to a node itself (Incr::on_update) *)
+Lemma node_handler_run_eq n ix h nu now :
+  node_handler_run n ix h nu now =
+    if bool_decide (hd_created_at h < now)%Z then
+      match deliver (hd_prev h) nu with
+      | Some k => node_really_run n ix h k
+      | None => ret tt
+      end
+    else ret tt.
+Proof. unfold node_handler_run, deliver. case_bool_decide; [|done]. destruct (hd_prev h), nu; done. Qed.
+
 (* the sequence of deliveries of one handler over successive reports of its node *)
 Fixpoint deliveries (prev : previously) (nus : list node_update) : list node_update :=
   match nus with
